@@ -10,7 +10,17 @@ rm -rf "$OUT"; mkdir -p "$OUT"
 git -C /repo worktree remove --force $WT 2>/dev/null; rm -rf $WT
 git -C /repo worktree add --detach -q $WT HEAD || exit 2
 DEMO=$(git -C $SRC status --porcelain | grep '^??' | grep -v '_out/' | awk '{print $2}' | head -1)
-CMD=$(grep -v '^ *#' $SRC/_out/demo_cmd.txt | grep -o "go test[^'|;&]*" | head -1 | sed 's/ *2>.*$//')
+CMD=$(python3 - "$SRC/_out/demo_cmd.txt" <<'PY'
+import sys,re
+for line in open(sys.argv[1]):
+    t=line.strip()
+    if t.startswith('#') or 'go test' not in t: continue
+    c=t[t.index('go test'):]
+    if "bash -c '" in t and c.endswith("'"): c=c[:-1]
+    c=re.sub(r'\s*(2>&1|\|).*$','',c)
+    print(c); break
+PY
+)
 cp $SRC/_out/patch.diff $OUT/patch.diff
 cp -r $SRC/$DEMO $OUT/$(basename $DEMO)
 cp $SRC/_out/notes.md $OUT/agent_notes.md 2>/dev/null
@@ -30,7 +40,7 @@ rm -rf /tmp/conf-demo-$NAME.go
 cd /; git -C /repo worktree remove --force $WT
 OK=false; if [ $U -eq 0 ] && [ $B -eq 0 ] && [ $C -ne 0 ] && [ -z "$BADFAILS" ]; then OK=true; fi
 cat > $OUT/confirm.json <<JSON
-{"property": "$PID", "demo_file": "$(basename $DEMO)", "demo_cmd": "$CMD", "demo_unchanged_exit": $U, "build_exit": $B, "demo_changed_exit": $C, "suite_exit": $S, "suite_failures": "$FAILS", "suite_failures_not_known_flaky": "$BADFAILS", "confirmed": $OK}
+{"property": "$PID", "demo_file": "$(basename $DEMO)", "demo_cmd": "$(echo "$CMD" | sed 's/"/\\"/g')", "demo_unchanged_exit": $U, "build_exit": $B, "demo_changed_exit": $C, "suite_exit": $S, "suite_failures": "$FAILS", "suite_failures_not_known_flaky": "$BADFAILS", "confirmed": $OK}
 JSON
 tail -c 2000 $OUT/suite_changed.log > $OUT/suite_changed.tail.log; rm -f $OUT/suite_changed.log
 for f in demo_unchanged demo_changed; do tail -c 3000 $OUT/$f.log > $OUT/$f.tail.log; rm -f $OUT/$f.log; done
